@@ -52,8 +52,16 @@ fn load_frac_case(m: &mut M, r: &mut Rng, d: usize) {
             }
             // half-integer hi with low word of either sign
             6 | 7 => {
-                let h = s * (r.range(0, 1 << 30) as f64 + 0.5);
-                (h, sgn(r) * pow2(-(r.range(30, 400) as i32)) * (1.0 + r.below(4) as f64 / 4.0))
+                // (small half-integers often: their products with a subnormal low word underflow)
+                let h = s * (if r.coin() { r.range(0, 4) } else { r.range(0, 1 << 30) } as f64 + 0.5);
+                let l = match r.below(6) {
+                    0 => pow2(-1074),
+                    1 => pow2(-1073) * (1.0 + r.below(2) as f64 / 2.0),
+                    2 => f64::from_bits(r.next() & ((1u64 << 52) - 1)),
+                    3 => pow2(-1022),
+                    _ => pow2(-(r.range(30, 400) as i32)) * (1.0 + r.below(4) as f64 / 4.0),
+                };
+                (h, sgn(r) * l)
             }
             // 2^k +- {0.5, 1, 1.5}
             8 => {
@@ -272,13 +280,29 @@ pub fn cmp(m: &mut M, r: &mut Rng, n: u64) {
         // b: related to a
         let x = m.tf(0);
         loop {
-            let (hi, lo) = match r.below(8) {
+            let (hi, lo) = match r.below(10) {
                 0 => (x.hi(), x.lo()),
                 1 => (x.hi(), if x.lo() == 0.0 { pow2(-1074) * sgn(r) } else { next_up_mag(x.lo()) }),
                 2 => (x.hi(), next_down_mag(x.lo())),
                 3 => (x.hi(), -x.lo()),
                 4 => (x.hi(), lo_candidate(r, x.hi())),
                 5 => (if x.hi() == 0.0 { -x.hi() } else { next_up_mag(x.hi()) }, lo_candidate(r, x.hi())),
+                8 | 9 if x.hi() != 0.0 && x.hi().is_finite() => {
+                    // nearest neighbours ACROSS a high-word boundary: a keeps its high word with the largest low word
+                    // pointing towards b, b has the adjacent high word with the largest low word pointing back;
+                    // the two values then differ by about one ulp of the low word (or coincide in value: never)
+                    let h = x.hi();
+                    let up = next_up_mag(h);
+                    let half = pow2(exponent(h) - 53);
+                    let s1 = if h > 0.0 { 1.0 } else { -1.0 };
+                    let la = s1 * match r.below(3) { 0 => half, 1 => next_down_mag(half), _ => next_down_mag(next_down_mag(half)) };
+                    let halfu = pow2(exponent(up) - 53);
+                    let quarter = halfu / 2.0;
+                    let lb = -s1 * match r.below(5) { 0 => halfu, 1 => next_down_mag(halfu), 2 => quarter, 3 => next_down_mag(quarter), _ => next_up_mag(quarter) };
+                    // a is reloaded with the extreme low word when that pair is valid (otherwise it keeps its own)
+                    let _ = m.load(0, h, la);
+                    (up, lb)
+                }
                 6 => (-x.hi(), -x.lo()),
                 _ => {
                     let h = r.f64_in(e - 1, e + 1);
